@@ -521,8 +521,9 @@ func H_C12_string() {
 // H_C12_binSearchInduct: the binary search of the real minimizer at FULL 64-bit width, by one
 // inductive step (loop cut-point). Condition x >= theta, effective threshold th = max(theta, small)
 // (accept never takes values below `small`; those are handled by minimize()'s try-small loop).
-//   invariant  i <= th <= j  and  m.best == j      variant  j - i decreases
-//   exit       m.best == th
+//
+//	invariant  i <= th <= j  and  m.best == j      variant  j - i decreases
+//	exit       m.best == th
 func H_C12_binSearchInduct() {
 	theta := nondetU64("theta")
 	best0 := nondetU64("best")
